@@ -194,8 +194,11 @@ func (h *Hub) Run() {
 				delete(h.connections, conn)
 				h.connMu.Unlock()
 
-				close(conn.send)
+				// Unlink from every room before closing the channel: Room.Broadcast
+				// sends under the room lock, so closing first let a concurrent room
+				// broadcast send on a closed channel and panic.
 				h.roomManager.RemoveConnectionFromAllRooms(conn)
+				close(conn.send)
 				h.metrics.DecrementConnections()
 				h.metrics.UnregisterConnection(conn.ID)
 
@@ -244,9 +247,9 @@ func (h *Hub) Run() {
 				select {
 				case conn.send <- message:
 				default:
-					close(conn.send)
 					delete(h.connections, conn)
 					h.roomManager.RemoveConnectionFromAllRooms(conn)
+					close(conn.send)
 				}
 			}
 			h.connMu.Unlock()
